@@ -242,6 +242,14 @@ pub trait Engine {
     fn run_child(&self, ctx: &ChildCtx, out: &mut Shard);
 }
 
+/// println! that survives a closed stdout (e.g. `| head`).
+macro_rules! say {
+    ($($a:tt)*) => {{
+        use std::io::Write as _;
+        let _ = writeln!(std::io::stdout(), $($a)*);
+    }};
+}
+
 fn root() -> PathBuf { PathBuf::from(std::env::var("VERIF_ROOT").unwrap_or_else(|_| "/verif".into())) }
 
 fn arg_val(args: &[String], name: &str) -> Option<String> {
@@ -472,11 +480,16 @@ fn parent_main(e: &dyn Engine, args: &[String]) -> ! {
     let tier = parse_tier(&arg_val(args, "--tier").or_else(|| std::env::var("VERIF_TIER").ok()).unwrap_or_default());
     let seed: u64 = arg_val(args, "--seed").or_else(|| std::env::var("VERIF_SEED").ok()).and_then(|s| s.trim().parse().ok()).unwrap_or(1);
     if !e.props().contains(&prop.as_str()) {
-        println!("INCONCLUSIVE property={} reason=engine {} does not serve it", prop, e.name());
+        say!("INCONCLUSIVE property={} reason=engine {} does not serve it", prop, e.name());
         std::process::exit(2);
     }
     let start = Instant::now();
     let mut plan = e.plan(&prop, tier);
+    // experiments only: VMON_SKIP_SAN=1 leaves the sanitizer tiers out (the evidence says so)
+    let skipped_san = std::env::var("VMON_SKIP_SAN").is_ok() && !plan.san.is_empty();
+    if skipped_san {
+        plan.san.clear();
+    }
     // optional scaling for experiments: VMON_SCALE=0.1
     if let Some(f) = std::env::var("VMON_SCALE").ok().and_then(|s| s.parse::<f64>().ok()) {
         plan.cases = ((plan.cases as f64) * f).max(1.0) as u64;
@@ -605,7 +618,7 @@ fn parent_main(e: &dyn Engine, args: &[String]) -> ! {
     let rep_dir = root().join("replays").join(&prop);
     for (v, tn, shard, nshards) in &violations {
         if let Some((_, _, what)) = known.open.iter().find(|(p, s, _)| p == &prop && s == &v.signature) {
-            println!("KNOWN-FINDING: property={} {}", prop, what);
+            say!("KNOWN-FINDING: property={} {}", prop, what);
             known_hits.push(v.signature.clone());
             continue;
         }
@@ -617,8 +630,8 @@ fn parent_main(e: &dyn Engine, args: &[String]) -> ! {
             "case_index": v.case_index, "kind": v.kind, "signature": v.signature, "detail": v.detail, "case": v.case,
         });
         let _ = std::fs::write(&path, serde_json::to_vec_pretty(&rep).unwrap());
-        println!("VIOLATION property={} replay={}", prop, path.display());
-        println!("  kind={} {}", v.kind, first_line(&v.detail));
+        say!("VIOLATION property={} replay={}", prop, path.display());
+        say!("  kind={} {}", v.kind, first_line(&v.detail));
     }
 
     // evidence
@@ -635,6 +648,7 @@ fn parent_main(e: &dyn Engine, args: &[String]) -> ! {
     coverage.insert("inconclusive".into(), json!(inconclusive));
     coverage.insert("known_findings_matched".into(), json!(known_hits));
     coverage.insert("shards".into(), json!(plan.shards));
+    coverage.insert("sanitizer_tiers_skipped_by_env".into(), json!(skipped_san));
     let ev = json!({
         "property_id": prop, "tier": tier.name(), "seed": seed, "level": "exploration",
         "coverage": Value::Object(coverage), "assumptions": plan.assumptions, "wall_s": wall, "violations": real,
@@ -646,7 +660,7 @@ fn parent_main(e: &dyn Engine, args: &[String]) -> ! {
     f.write_all(&serde_json::to_vec_pretty(&ev).unwrap()).unwrap();
     f.write_all(b"\n").unwrap();
 
-    println!(
+    say!(
         "{} {} tier={} seed={} evaluations={} distinct_nontrivial={} violations={} known={} inconclusive={} wall={:.1}s",
         e.name(), prop, tier.name(), seed, evaluations, distinct.len(), real, known_hits.len(), inconclusive.len(), wall
     );
@@ -655,7 +669,7 @@ fn parent_main(e: &dyn Engine, args: &[String]) -> ! {
     }
     if !inconclusive.is_empty() {
         for m in inconclusive.iter().take(10) {
-            println!("INCONCLUSIVE property={} reason={}", prop, m.replace('\n', " | "));
+            say!("INCONCLUSIVE property={} reason={}", prop, m.replace('\n', " | "));
         }
         std::process::exit(2);
     }
@@ -688,19 +702,19 @@ fn replay_main(e: &dyn Engine, path: &str) -> ! {
         progress: None,
     };
     if !san.is_empty() {
-        println!("note: this witness was found under sanitizer tier '{}'; replaying on the current binary", san);
+        say!("note: this witness was found under sanitizer tier '{}'; replaying on the current binary", san);
     }
     let mut sh = Shard::default();
     e.run_child(&ctx, &mut sh);
     if sh.violations.is_empty() {
-        println!("replay: property={} case {} did not violate on the current tree (judged {} executions)", prop, ctx.only_case.unwrap(), sh.evaluations);
+        say!("replay: property={} case {} did not violate on the current tree (judged {} executions)", prop, ctx.only_case.unwrap(), sh.evaluations);
         std::process::exit(0)
     }
     for x in &sh.violations {
-        println!("VIOLATION property={} replay={}", prop, path);
-        println!("  kind={} signature={}", x.kind, x.signature);
-        println!("  {}", x.detail);
-        println!("  case={}", serde_json::to_string_pretty(&x.case).unwrap());
+        say!("VIOLATION property={} replay={}", prop, path);
+        say!("  kind={} signature={}", x.kind, x.signature);
+        say!("  {}", x.detail);
+        say!("  case={}", serde_json::to_string_pretty(&x.case).unwrap());
     }
     std::process::exit(1)
 }
